@@ -549,7 +549,11 @@ def _norm_index(idx):
                 return slice(*[None if p is None else operator.index(p)
                                for p in (x.start, x.stop, x.step)])
             return x
+        if isinstance(x, tuple):
+            x = list(x)          # NumPy treats a tuple inside an index tuple as a sequence
         if isinstance(x, list):
+            if any(isinstance(c, LazyMasked) for c in x):
+                x = [c.force() if isinstance(c, LazyMasked) else c for c in x]
             if any(isinstance(c, SVal) for c in x):
                 sym[0] = True
                 dt = bool if all(isinstance(c, (bool, SBool)) for c in x) else int
